@@ -7,7 +7,7 @@ UNIT = dict(
     spec=["spec.rs"],
     rules=dict(
         await_mark=True,
-        env_methods=["start", "signal", "restart", "restart_with_signal", "run", "to_wait", "fetch_or", "store", "fetch_add", "vx_awaited"],
+        env_methods=["start", "signal", "restart", "restart_with_signal", "run", "to_wait", "stop", "stop_with_signal", "try_restart", "try_restart_with_signal", "delete", "fetch_or", "store", "fetch_add", "vx_awaited"],
         env_paths=["vx_spawn", "vx_quit"],
         subst=[("ActionHandler", "Handler")],
     ),
